@@ -193,6 +193,8 @@ def site_placement(m, pattern):
     out = []
     if pattern == "none" or n == 0:
         return out
+    if m.grid == "ulp":
+        pattern = "bps"  # a one-ulp cell has no interior point to put a site on
     if pattern == "full":
         for i in range(m.G):
             w = c[i + 1] - c[i]
@@ -947,7 +949,10 @@ def shards(tier, seed):
         _split(specs, dict(N=3, G=2, times="weak", grid="frac", timescale="quarter"), "singles", 30)
         _split(specs, dict(N=3, G=2, times="id", squash=False), "pairs", 6)
         _split(specs, dict(N=4, G=2, times="id", squash=False), "sorted-singles", 18)
+        _split(specs, dict(N=3, G=3, times="id", grid="ulp"), "singles", 12)
     else:
+        _split(specs, dict(N=3, G=3, times="id", grid="ulp"), "pairs", 12)
+        _split(specs, dict(N=4, G=3, times="id", grid="ulp"), "sorted-singles", 150)
         for n in (1, 2, 3):
             for g in (1, 2):
                 _split(specs, dict(N=n, G=g, times="id"), "full", 4)
